@@ -97,6 +97,9 @@ list storms); the parser memo (C14) was caught by the first run through ONE prog
 by hundreds of cases. (The eight agents shared one `git stash` through their worktrees and popped each other's changes; every patch was
 therefore confirmed on its own by `tools/confirm_seeded.sh`, which starts from a clean checkout — later briefs must say
 `git diff > p; git checkout -- src; …; git apply p` instead of `git stash`.)
+Open item for a later round: storm families of this kind (consecutive calls on one thread whose arguments collide under a cheap
+key) exist for C03, C05, C06, C09, C14, C16 and C20; the other properties rely on ordinary programs sharing a shard's worker
+thread, which caught the w9b changes written for C10, C12, C17 and C18 but is not designed to.
 First-run rates per wave: 80/100 (waves 1–2), 7/12, 19/30, 21/30, 26/30, 23/30, 21/22, 5/6 + 5/8.
 
 | seeded change | property | needs | caught | by |
